@@ -129,6 +129,55 @@ func runSockLegC02(c *Ctx) {
 		}
 	}
 	r.Count("real_socket_deliveries", int64(n))
+
+	// (c) a slow server with PacketReadTimeout = 1 s: one packet arrives in
+	// four pieces 400 ms apart. No single pause reaches the timeout, the
+	// packet as a whole takes longer than it: the configured timeout bounds
+	// the silence between two reads, not the duration of a packet. (The
+	// sleeps shape the workload; the verdict is the delivered list.)
+	slow := 0
+	for ri, resp := range resps {
+		if slow >= 2 || ri%5 != 1 {
+			continue
+		}
+		body := resp.Bytes()
+		refOut, err := c02Deliver(c02Packets(body, nil, nil, false), "reader", nil)
+		if err != nil || refOut.watchdog || len(refOut.d.Errs) > 0 || len(refOut.d.Dumps) == 0 || len(body) < 8 {
+			continue
+		}
+		slow++
+		r.Eval(1)
+		st := xport.Concat(c02Packets(body, nil, nil, false))
+		cs := sockCase{Leg: "C02", What: resp.Name + "/slow-four-pieces-read-timeout-1s", Hex: hex.EncodeToString(body)}
+		k, err := newSockKit(4096, 1)
+		if err != nil {
+			r.Inconclusive("real-socket leg: %v", err)
+			continue
+		}
+		q := len(st) / 4
+		var ferr error
+		for i := 0; i < 4 && ferr == nil; i++ {
+			end := (i + 1) * q
+			if i == 3 {
+				end = len(st)
+			}
+			if i > 0 {
+				time.Sleep(400 * time.Millisecond)
+			}
+			ferr = k.feed(st[i*q : end])
+		}
+		got := drainChannel(k.ch, k.ctx)
+		k.close()
+		if ferr != nil && len(got.Errs) == 0 {
+			r.Inconclusive("real-socket slow delivery of %s: %v", resp.Name, ferr)
+			continue
+		}
+		r.Distinct("sock|" + cs.What)
+		if len(got.Errs) > 0 || !sameStrings(got.Dumps, refOut.d.Dumps) {
+			sockViolate(r, "fragmentation/slow-reads-within-the-read-timeout", fmt.Sprintf("response %s in one packet delivered in four writes 400 ms apart with PacketReadTimeout = 1 s: packages %v errors %.300v, reference %v", resp.Name, got.Types, got.Errs, refOut.d.Types), cs)
+		}
+	}
+	r.Count("real_socket_slow_deliveries", int64(slow))
 }
 
 // runSockLegC01: framing of outgoing messages as seen by a server behind a socket.
